@@ -304,8 +304,8 @@ async fn exec_live(cfg: Cfg, with_srtp_fn: bool, conc: bool) -> LiveObs {
             let (doa, dao) = concurrent_media_and_data(&p, 300, 900, Duration::from_secs(15)).await;
             o.conc.push(("data-not-delivered:o->a", doa)); o.conc.push(("data-not-delivered:a->o", dao));
             // … and intact RTP keeps arriving afterwards
-            let ra = match p.off.media.first() { Some(m) => rtp_roundtrip_skipping(m, &p.ans.pc, b"verif-c10-after-conc-oa", T_MSG, Some(CONC_MEDIA)).await, None => Ok(()) };
-            let rb = match p.ans.media.first() { Some(m) => rtp_roundtrip_skipping(m, &p.off.pc, b"verif-c10-after-conc-ao", T_MSG, Some(CONC_MEDIA)).await, None => Ok(()) };
+            let ra = match p.off.media.first() { Some(m) => rtp_roundtrip_skipping(m, &p.ans.pc, b"verif-c10-after-conc-oa", T_MSG, &[CONC_MEDIA, b"verif-c10-oa-0-payload"]).await, None => Ok(()) };
+            let rb = match p.ans.media.first() { Some(m) => rtp_roundtrip_skipping(m, &p.off.pc, b"verif-c10-after-conc-ao", T_MSG, &[CONC_MEDIA, b"verif-c10-ao-0-payload"]).await, None => Ok(()) };
             o.conc.push(("rtp-not-delivered:o->a", ra)); o.conc.push(("rtp-not-delivered:a->o", rb));
         }
         o.extra_o = p.off.pc.verif_lc_extra_transport_counts();
